@@ -7,6 +7,7 @@ import (
 	"errors"
 	"fmt"
 	"math/big"
+	"strings"
 	"sync"
 	"time"
 
@@ -197,6 +198,13 @@ func buildChanges() []change {
 	}
 	add("signing-time-zero", always, func(c *ctx) { c.req.SigningTime = time.Time{} })
 	add("expiry-equal", always, func(c *ctx) { c.req.Expiry = c.req.SigningTime })
+	add("expiry-equal-in-another-zone", always, func(c *ctx) {
+		// the same instant, written by a clock in another time zone
+		c.req.Expiry = c.req.SigningTime.In(time.FixedZone("", 5*3600+1800))
+	})
+	add("expiry-before-in-another-zone", always, func(c *ctx) {
+		c.req.Expiry = c.req.SigningTime.Add(-time.Second).In(time.FixedZone("", -11*3600))
+	})
 	add("expiry-before", always, func(c *ctx) { c.req.Expiry = c.req.SigningTime.Add(-time.Hour) })
 	add("expiry-later-only-by-subsecond", always, func(c *ctx) {
 		c.req.SigningTime = sims.SignTime.Add(200 * time.Millisecond)
@@ -306,6 +314,27 @@ func buildChanges() []change {
 		add("attr-cose-spec-label-typed-"+k, coseOnly, func(c *ctx) {
 			// a type-correct tag-1 time value, marked critical
 			c.req.ExtendedSignedAttributes = append(c.req.ExtendedSignedAttributes, signature.Attribute{Key: k, Critical: true, Value: cbor.Tag{Number: 1, Content: int64(1861920000)}})
+		})
+	}
+	type withSlice struct{ S []int }
+	for _, k := range []any{[]int{1}, map[string]int{"a": 1}, withSlice{[]int{1}}, [1][]byte{{1}}, []any{"a"}, func() {}} {
+		k := k
+		// key types Go cannot even hash
+		add(fmt.Sprintf("attr-cose-key-unhashable-%T", k), coseOnly, func(c *ctx) {
+			c.req.ExtendedSignedAttributes = append(c.req.ExtendedSignedAttributes, attr(k, "x")...)
+		})
+	}
+	for _, k := range []string{"io.cncf.notary.\u017figningScheme", "io.cncf.notary.\u017figningTime", "io.cncf.notary.authentic\u017figningTime", "io.cncf.notary.expir\u1e8f", "\u212aid"} {
+		k := k
+		if !strings.Contains(k, "\u017f") {
+			continue // only the long s folds onto a specification header
+		}
+		add("attr-jws-spec-label-long-s-"+strings.ReplaceAll(k, "\u017f", "s"), jwsOnly, func(c *ctx) {
+			v := any("2009-01-01T00:00:00Z")
+			if strings.HasSuffix(k, "Scheme") {
+				v = c.b.Scheme
+			}
+			c.req.ExtendedSignedAttributes = append(c.req.ExtendedSignedAttributes, signature.Attribute{Key: k, Critical: true, Value: v})
 		})
 	}
 	for _, k := range []any{1.5, true, nil, []byte("k"), [2]int{1, 2}} {
